@@ -196,7 +196,7 @@ Proof.
           by_ok st' /\ ss_account st' = ss_account st /\ b = st_has st space p
           /\ (forall sp0 q, st_has st' sp0 q = st_has st sp0 q && negb (N.eqb sp0 space && str_eqb q p))
           /\ trie_inv tr' (fun q => if str_eqb q p && st_has st space p then N.pred (f q) else f q)).
-  { intros -> -> -> Hh. repeat split; try apply HB; auto.
+  { intros -> -> -> Hh. split; [exact HB|split; [reflexivity|split; [symmetry; exact Hh|split]]].
     - intros sp0 q. destruct (N.eqb sp0 space) eqn:E1; cbn [andb negb]; [|rewrite andb_true_r; reflexivity].
       destruct (str_eqb q p) eqn:E2; cbn [negb]; [|rewrite andb_true_r; reflexivity].
       apply N.eqb_eq in E1. apply str_eqb_eq in E2. subst. rewrite Hh. reflexivity.
@@ -213,7 +213,7 @@ Proof.
   assert (Hpos : 0 < length pats) by (destruct pats; [contradiction|cbn; lia]).
   split; [|split; [reflexivity|split; [symmetry; exact Hh|split]]].
   - (* by_ok *)
-    cbn [ss_by ss_total]. destruct (is_nil (del_str p pats)) eqn:ENil.
+    unfold by_ok. cbn [ss_by ss_total]. destruct (is_nil (del_str p pats)) eqn:ENil.
     + split; [apply nodup_ndel; exact ND|split].
       * intros sp l Hl. destruct (N.eq_dec space sp) as [->|Hne2]; [rewrite nassoc_ndel_same in Hl; discriminate|].
         rewrite nassoc_ndel_other in Hl by exact Hne2. apply (HL sp l Hl).
@@ -260,8 +260,8 @@ Proof.
     + intros sp0 q. rewrite Hh', Hh1. cbn [mem_str]. destruct (st_has st sp0 q), (N.eqb sp0 space), (str_eqb q p), (mem_str q ps); reflexivity.
     + eapply trie_inv_ext; [exact HT'|]. intros q. cbv beta. rewrite Hh1, N.eqb_refl. cbn [mem_str andb].
       destruct (str_eqb q p) eqn:Eq.
-      * apply str_eqb_eq in Eq. subst q. cbn [negb andb orb]. rewrite andb_false_r. cbn [b2n andb].
-        destruct (st_has st space p); cbn [b2n]; lia.
+      * apply str_eqb_eq in Eq. subst q. rewrite ?str_eqb_refl. cbn [negb andb orb]. rewrite ?andb_false_r.
+        destruct (st_has st space p); cbn [b2n andb]; lia.
       * cbn [negb andb orb]. rewrite andb_true_r. reflexivity.
     + intros q. rewrite HR'. rewrite Hh1, N.eqb_refl. cbn [andb mem_str].
       assert (Em : mem_str q (if b then removed ++ [p] else removed) = mem_str q removed || (b && str_eqb q p)).
